@@ -184,7 +184,31 @@ def gen_big(rng):
     return Case("hist", [kind, 1, prow(rows), ";".join(ops)], True, "hist-big-" + kind)
 
 
+def gen_alias(rng):
+    """an alignment is handed to Append / Concat (into an empty or a filled receiver), then residues are written in place:
+    the argument keeps its content, the receiver does not see later writes into the argument (last record of the trace)"""
+    alpha = "acgtACGT"
+    L = rng.randint(1, 6)
+    pool = rng.sample(NAMES, 4)
+    nrows = rng.choice([0, 0, 1, 2, 3])
+    rows = [(pool[i], rseq(rng, alpha, L)) for i in range(nrows)]
+    ops = []
+    if nrows and rng.random() < 0.3:
+        ops.append("clear")
+        nrows = 0
+    arg = [(n, rseq(rng, alpha, rng.choice([L, L, rng.randint(1, 4)]))) for n in rng.sample(pool + ["zz"], rng.randint(1, 3))]
+    ops.append(rng.choice(["concat:", "concat:", "append:"]) + prow(arg))
+    for _ in range(rng.randint(1, 3)):
+        ops.append(rng.choice(["toupper", "tolower", "setchar:%d:%d:N" % (rng.randint(0, 2), rng.randint(0, L)),
+                               "replace:%s:%s" % (rng.choice("acgtACGT"), rng.choice("nN-")), "trimseqs:1:%d" % rng.randint(0, 1)]))
+    if rng.random() < 0.4:
+        ops.append("concat:" + prow([(n, rseq(rng, alpha, 2)) for n in rng.sample(pool, 2)]))
+    return Case("hist", ["A", 1, prow(rows), ";".join(ops)], True, "hist-alias")
+
+
 def _gen_core(rng, tier):
+    for _ in range(150 if tier == "quick" else 1500):
+        yield gen_alias(rng)
     n = 1500 if tier == "quick" else 15000
     maxops = 12 if tier == "quick" else 40
     for _ in range(n):
